@@ -1,0 +1,73 @@
+//go:build verif
+
+// Contracts for the govc deductive verifier (see /verif/DESIGN.md). This file
+// contains comments only and is compiled only with the build tag "verif".
+
+package prometheus
+
+// ---------------------------------------------------------------------------
+// Tunnel time (C17, C19). Ghost: rep[k] = nanoseconds reported so far for key k
+// (k is the engine's encoding of an IPKey). With pending(k) = Clock - startTime
+// for an active key and 0 otherwise, every operation keeps rep[k] + pending(k)
+// equal to the time key k actually had a tunnel open: nothing lost, nothing
+// counted twice, across any number of scrapes.
+// ---------------------------------------------------------------------------
+
+//@ ghost field tunnelTimeMetrics.rep map[ref]int
+//@ guarded tunnelTimeMetrics.{activeClients,rep} by tunnelTimeMetrics.mu
+//@ guarded tunnelTimeMetrics.{ip2info,tunnelTimePerKey,tunnelTimePerLocation} class immutable set by newTunnelTimeMetrics
+//@ guarded activeClient.{connCount,startTime} class confined records are reachable only through activeClients and touched only with tunnelTimeMetrics.mu held (checked at the access sites below)
+//@ guarded activeClient.{info} class immutable set when the record is created
+
+//@ pred validTT(c *tunnelTimeMetrics) := c != nil && c.tunnelTimePerKey != nil && c.tunnelTimePerLocation != nil
+
+//@ lockinv[C17] tunnelTimeMetrics.mu(c) := c.activeClients != nil \
+//@   && (forall k ref :: has(c.activeClients, k) ==> c.activeClients[k] != nil && c.activeClients[k].connCount > 0 && c.activeClients[k].startTime <= clock()) \
+//@   && (forall k ref :: forall j ref :: has(c.activeClients, k) && has(c.activeClients, j) && k != j ==> c.activeClients[k] != c.activeClients[j])
+
+// reportTunnelTime adds (tNow - startTime) to the per-key and the per-location counter and
+// restarts the period at tNow. Counter.Add panics for negative values, hence the precondition.
+//@ func (*tunnelTimeMetrics).reportTunnelTime
+//@   props C17 C18
+//@   holds c.mu
+//@   requires validTT(c) && client != nil
+//@   requires tNow >= client.startTime
+//@   ghost-at-exit c.rep[mapkey(ipKey)] := old(c.rep[mapkey(ipKey)]) + (tNow - old(client.startTime))
+//@   ensures client.startTime == tNow && client.connCount == old(client.connCount)
+//@   trace[C17,per-key-and-per-location] exactly 2 prometheus.Counter.Add
+
+//@ func (*tunnelTimeMetrics).startConnection
+//@   props C17 C18 C19
+//@   atomic
+//@   requires validTT(c)
+//@   assume-at-lock has(c.activeClients, ipKey) ==> c.activeClients[ipKey].connCount < 4611686018427387904
+//@   ensures[C17,opens-one] has(c.activeClients, ipKey) && c.activeClients[ipKey].connCount == ite(atlock(has(c.activeClients, ipKey)), atlock(c.activeClients[ipKey].connCount) + 1, 1)
+//@   ensures[C17,exact] forall k ref :: c.rep[k] + ite(has(c.activeClients, k), clock() - c.activeClients[k].startTime, 0) \
+//@        == atlock(c.rep[k]) + ite(atlock(has(c.activeClients, k)), clock() - atlock(c.activeClients[k].startTime), 0)
+//@   trace[C17,no-report-on-start] never prometheus.Counter.Add
+
+//@ func (*tunnelTimeMetrics).stopConnection
+//@   props C17 C18 C19
+//@   atomic
+//@   requires validTT(c)
+//@   ensures[C17,closes-one] atlock(has(c.activeClients, ipKey)) && atlock(c.activeClients[ipKey].connCount) > 1 ==> has(c.activeClients, ipKey) && c.activeClients[ipKey].connCount == atlock(c.activeClients[ipKey].connCount) - 1
+//@   ensures[C17,last-close-removes] atlock(has(c.activeClients, ipKey)) && atlock(c.activeClients[ipKey].connCount) == 1 ==> !has(c.activeClients, ipKey)
+//@   ensures[C17,exact] forall k ref :: c.rep[k] + ite(has(c.activeClients, k), clock() - c.activeClients[k].startTime, 0) \
+//@        == atlock(c.rep[k]) + ite(atlock(has(c.activeClients, k)), clock() - atlock(c.activeClients[k].startTime), 0)
+
+//@ func (*tunnelTimeMetrics).Collect
+//@   props C17 C18 C19
+//@   atomic
+//@   requires validTT(c)
+//@   loop 1 invariant c.activeClients == atlock(c.activeClients) && heldw(c.mu) \
+//@     && (forall k ref :: has(c.activeClients, k) ==> c.activeClients[k] != nil && c.activeClients[k].connCount == atlock(c.activeClients[k].connCount)) \
+//@     && (forall k ref :: has(c.activeClients, k) && visited(k) ==> c.activeClients[k].startTime == tNow && c.rep[k] == atlock(c.rep[k]) + tNow - atlock(c.activeClients[k].startTime)) \
+//@     && (forall k ref :: has(c.activeClients, k) && !visited(k) ==> c.activeClients[k].startTime == atlock(c.activeClients[k].startTime) && c.rep[k] == atlock(c.rep[k])) \
+//@     && (forall k ref :: !has(c.activeClients, k) ==> c.rep[k] == atlock(c.rep[k]))
+//@   ensures[C17,exact] forall k ref :: c.rep[k] + ite(has(c.activeClients, k), clock() - c.activeClients[k].startTime, 0) \
+//@        == atlock(c.rep[k]) + ite(atlock(has(c.activeClients, k)), clock() - atlock(c.activeClients[k].startTime), 0)
+
+//@ func toIPKey
+//@   props C17 C18
+//@   requires addr != nil
+//@   ensures result.1 == nil ==> result.0 != nil
